@@ -1086,6 +1086,17 @@ class Interp:
             return obj.count
         if getattr(type(obj), "__lift_host__", False) and not attr.startswith("_"):
             return getattr(obj, attr)
+        if obj is BUILTINS["dict"] and attr == "fromkeys":
+            # keys keep first-seen order; equal keys collapse under the interpreter's notion of equality
+            def fromkeys(it, value=None):
+                out = self.new_dict() if hasattr(self, "new_dict") else {}
+                for k in self.iterate(it, node):
+                    k = _hashable(k)
+                    if k not in out:
+                        out[k] = value
+                return out
+
+            return fromkeys
         raise Unsupported(f"attribute {attr} on {type(obj).__name__} ({norm(node)})")
 
     def _class_body_value(self, k, attr, r):
